@@ -56,19 +56,38 @@ fn run(ops: &str) -> Option<String> {
 /// running; every surviving file holds whole lines that are a contiguous run of the accepted events in order; the runs
 /// together are a most-recent suffix of the log; the total size of the prefix files exceeds `keep` by at most one event;
 /// no file exceeds `write` by more than one event.
-fn run_writer(keep: u64, write: u64, n: usize, msg: usize) -> Option<String> {
+fn run_writer(keep: u64, write: u64, n: usize, msg: usize) -> Option<String> { run_writer2(keep, write, n, msg, 0) }
+/// `old` files of 400 bytes each left by an "earlier run" are in the directory before the writer starts
+fn run_writer2(keep: u64, write: u64, n: usize, msg: usize, old: usize) -> Option<String> { run_writer3(keep, write, n, msg, old, false) }
+/// `stale`: the events carry caller-supplied timestamps that jump back and forth by hours (servlin::log::internal::log
+/// takes the time from its caller, e.g. the time an Error was made); acceptance order is still the sending order
+fn run_writer3(keep: u64, write: u64, n: usize, msg: usize, old: usize, stale: bool) -> Option<String> {
     use servlin::log::internal::LogEvent;
     use servlin::log::{tag, LogFileWriter};
     let dir = scratch();
-    let desc = format!("writer keep={keep} write={write} n={n} msg={msg}");
+    let desc = if stale { format!("writer keep={keep} write={write} n={n} msg={msg} stale=1") } else if old == 0 { format!("writer keep={keep} write={write} n={n} msg={msg}") } else { format!("writer keep={keep} write={write} n={n} msg={msg} old={old}") };
     let prefix = dir.join("log");
+    for k in 0..old {
+        // whole lines of an earlier run (events numbered below zero do not exist: they are marked `old`)
+        std::fs::write(dir.join(format!("log.20200101T00000{k}Z-0")), format!("{{\"old\":{k},\"pad\":\"{}\"}}\n", "y".repeat(380))).unwrap();
+    }
     let fail = |m: String| { let _ = std::fs::remove_dir_all(&dir); Some(format!("{desc} {m}")) };
     let sender = match LogFileWriter::new_builder(prefix.clone(), keep).with_max_write_bytes(write).start_writer_thread() {
         Ok(s) => s,
         Err(e) => return fail(format!("expected=writer-starts actual={e:?}")),
     };
     let mut max_line = 0u64;
+    let _guard = if stale { match servlin::log::set_global_logger(sender.clone()) { Ok(g) => Some(g), Err(_) => return fail("expected=global logger free actual=already set".to_string()) } } else { None };
     for i in 0..n {
+        if stale {
+            let text = format!("{i:08}{}", "x".repeat(msg));
+            let t = SystemTime::now() - Duration::from_secs(if i % 3 == 1 { 7200 + 60 * i as u64 } else { 0 }) + Duration::from_secs(if i % 3 == 2 { 3600 } else { 0 });
+            max_line = max_line.max(msg as u64 + 120);
+            if servlin::log::internal::log(t, servlin::log::Level::Info, tag("msg", text)).is_err() {
+                return fail(format!("expected=writer-keeps-running actual=writer thread gone at event {i}"));
+            }
+            continue;
+        }
         let text = format!("{i:08}{}", "x".repeat(msg));
         let ev = LogEvent::new(servlin::log::Level::Info, tag("msg", text));
         let mut b = Vec::new();
@@ -104,7 +123,7 @@ fn run_writer(keep: u64, write: u64, n: usize, msg: usize) -> Option<String> {
         if !text.is_empty() && !text.ends_with('\n') { return fail(format!("expected=whole lines actual={name} ends in a partial line")); }
         let mut idx: Vec<usize> = Vec::new();
         for l in text.lines() {
-            if l.contains("Starting log writer") { continue; }
+            if l.contains("Starting log writer") || l.starts_with("{\"old\":") { continue; }
             match l.split("\"msg\":\"").nth(1).and_then(|r| r.get(0..8)).and_then(|d| d.parse::<usize>().ok()) {
                 Some(k) if l.starts_with('{') && l.ends_with('}') => idx.push(k),
                 _ => return fail(format!("expected=whole event lines actual={name} has line {l:?}")),
@@ -127,7 +146,8 @@ fn main() {
         let w = args[2..].join(" ");
         if w.starts_with("writer ") {
             let g = |k: &str| -> u64 { w.split(&format!("{k}=")).nth(1).unwrap().split(' ').next().unwrap().parse().unwrap() };
-            match run_writer(g("keep"), g("write"), g("n") as usize, g("msg") as usize) {
+            let old = if w.contains(" old=") { g("old") as usize } else { 0 };
+            match run_writer3(g("keep"), g("write"), g("n") as usize, g("msg") as usize, old, w.contains(" stale=1")) {
                 Some(m) => { println!("WITNESS {m}"); std::process::exit(1) }
                 None => { println!("OK witness no longer fails"); std::process::exit(0) }
             }
@@ -156,6 +176,14 @@ fn main() {
                                       (150000, 65536, 40, 20000), (65536, 65536, 700, 100), (300, 65536, 3, 1000)] {
         n += 1;
         if let Some(m) = run_writer(keep, write, cnt, msg) { if found.len() < 5 { found.push(m) } }
+    }
+    for &(keep, write, cnt, msg) in &[(150000u64, 65536u64, 400usize, 1000usize), (200000, 65536, 700, 900)] {
+        n += 1;
+        if let Some(m) = run_writer3(keep, write, cnt, msg, 0, true) { if found.len() < 5 { found.push(m) } }
+    }
+    for &(keep, write, cnt, msg, old) in &[(1000u64, 65536u64, 10usize, 100usize, 3usize), (100000, 65536, 5, 100, 300)] {
+        n += 1;
+        if let Some(m) = run_writer2(keep, write, cnt, msg, old) { if found.len() < 5 { found.push(m) } }
     }
     println!("EVALUATED {n}");
     for f in &found { println!("WITNESS {f}"); }
